@@ -5,5 +5,6 @@ CONSTANTS
   ForwardHalfClose = TRUE
   JoinBeforeError = FALSE
   NeedFirstMessage = FALSE
+  FirstSendEOFFatal = FALSE
 INVARIANTS Emit
 CHECK_DEADLOCK FALSE
